@@ -35,12 +35,14 @@ KANI_FLAGS = ["-Z", "unstable-options", "--ignore-global-asm", "-Z", "stubbing",
               "--no-assertion-reach-checks"]
 JOBS = int(os.environ.get("VERIF_JOBS", "12"))
 MEM_LIMIT_GB = int(os.environ.get("VERIF_MEM_GB", "14"))
-DEFAULT_TIMEOUT = {"quick": 420, "thorough": 3000}
+DEFAULT_TIMEOUT = {"quick": 1200, "thorough": 3600}
 ENV = dict(os.environ, CARGO_NET_OFFLINE="true", CARGO_TERM_COLOR="never")
 ENV.pop("RUSTFLAGS", None)
 
 # runs against anything but /repo (mutation trials) must not touch the committed evidence
-OUT_ROOT = VERIF if os.path.realpath(REPO) == "/repo" else os.path.join(VERIF, ".cache", "trial")
+# VERIF_ONLY=<regex>: development filter on obligation ids; such a partial run never writes the evidence of record
+ONLY = os.environ.get("VERIF_ONLY")
+OUT_ROOT = VERIF if (os.path.realpath(REPO) == "/repo" and not ONLY) else os.path.join(VERIF, ".cache", "trial")
 
 PROP_ASSERT_RE = re.compile(r"^\[(C\d+\.[A-Za-z0-9_.-]+)\]")
 
@@ -318,7 +320,7 @@ def parse_kani(out):
 
 
 def run_harness(scratch, ob, tier):
-    timeout = int(ob.get("timeout", DEFAULT_TIMEOUT[tier]))
+    timeout = int(os.environ.get("VERIF_TIMEOUT") or ob.get("timeout", DEFAULT_TIMEOUT[tier]))
     cmd = ["cargo", "kani"] + KANI_FLAGS
     if ob["crate"] == "may_queue":
         cmd += ["-p", "may_queue"]
@@ -709,6 +711,8 @@ def decide(pid, tier):
     seed = int(os.environ.get("VERIF_SEED", "0") or 0)
     table = load_table()
     obs = [o for o in table if pid in o["property"] and (tier == "thorough" or o["tier"] == "quick")]
+    if ONLY:
+        obs = [o for o in obs if re.search(ONLY, o["obligation"])]
     if not obs:
         log(f"UNDECIDED property={pid}: no obligations registered")
         return 2
